@@ -17,7 +17,7 @@ theorem cb_stepOk {sys : Sys} {comp snap : List Nat} {s : St} (c : CompCtx sys c
   split
   · rename_i h
     obtain ⟨q, hq, hqi⟩ := (any_inter_iff sys comp).1 h
-    exact slow_stepOk c hq hqi _
+    exact slow_stepOk c hq hqi _ (by unfold slowFuel; omega)
   · exact simple_stepOk c
 
 theorem cb_good {sys : Sys} {comp snap : List Nat} {s : St} (c : CompCtx sys comp snap s)
@@ -71,6 +71,8 @@ structure RunOk (sys : Sys) (cs : List (List Nat × List Nat)) (s t : St) : Prop
   offend : (∃ c ∈ cs, ∃ v ∈ c.1, Offends sys c.2 v) → t.err ≠ []
   tmo : s.timeout = true → t.timeout = true
   good : t.err = [] → t.timeout = false → ∀ c ∈ cs, CompGood sys c.1 t
+  bounded : Bounded sys s → Bounded sys t
+  tmoF : Bounded sys s → s.timeout = false → t.timeout = false
 
 theorem run_spec {sys : Sys} (hwf : Wf sys) :
     ∀ (cs : List (List Nat × List Nat)) (s : St), Listing sys cs → s.sets.length = sys.length →
@@ -80,7 +82,7 @@ theorem run_spec {sys : Sys} (hwf : Wf sys) :
   induction cs with
   | nil =>
     intro s _ hlen hs _
-    exact ⟨hlen, hs, fun _ _ => rfl, ⟨[], by simp, by simp⟩, by simp, fun h => h, by simp⟩
+    exact ⟨hlen, hs, fun _ _ => rfl, ⟨[], by simp, by simp⟩, by simp, fun h => h, by simp, fun h => h, fun _ h => h⟩
   | cons c cs ih =>
     intro s hL hlen hs hfresh
     simp only [List.foldl_cons]
@@ -98,7 +100,8 @@ theorem run_spec {sys : Sys} (hwf : Wf sys) :
     have R := ih (closureCb sys s (comp, snap)) hL.tail S.len S.sorted hfresh'
     obtain ⟨ex1, e1, e2⟩ := S.err
     obtain ⟨ex2, e3, e4⟩ := R.err
-    refine ⟨R.len, R.sorted, ?_, ⟨ex1 ++ ex2, by rw [e3, e1]; simp, ?_⟩, ?_, fun h => R.tmo (S.tmo h), ?_⟩
+    refine ⟨R.len, R.sorted, ?_, ⟨ex1 ++ ex2, by rw [e3, e1]; simp, ?_⟩, ?_, fun h => R.tmo (S.tmo h), ?_,
+      fun hB => R.bounded (S.bounded hB), fun hB h => R.tmoF (S.bounded hB) (S.tmoF hB h)⟩
     · intro u hu
       rw [R.frame u (fun c' hc' => hu c' (by simp [hc']))]
       exact S.frame u (hu (comp, snap) (by simp))
